@@ -7,6 +7,7 @@
    the header graphs py7zr writes, their intended member list, and the semantic header they denote. *)
 From P7 Require Import Prelude PyPrims Number Header HeaderPrims Spec SpecProofs.
 From P7 Require PackInfoGen.
+From P7 Require HeaderGenPrims FolderGen.
 From P7gen Require ArchiveinfoRecords.
 Open Scope Z_scope.
 
@@ -188,3 +189,33 @@ Theorem C07_gen_PackInfo_write_state : forall (self o : ArchiveinfoRecords.PackI
         (ArchiveinfoRecords.PackInfo_enable_digests self || any_true (ArchiveinfoRecords.PackInfo_digestdefined self)).
 Proof. exact PackInfoGen.gen_PackInfo_write_state. Qed.
 Print Assumptions C07_gen_PackInfo_write_state.
+
+(* ---- third wave (stage 2): Folder.write and UnpackInfo.write (with_crcs = False, the main streams) as translated on this
+   run are write_folder / write_unpackinfo, for every object.  Side condition, exactly: UnpackInfo.write asserts
+   numfolders == len(folders) (the model has no separate count). ---- *)
+Theorem C07_gen_Folder_write_is_write_folder : forall self : ArchiveinfoRecords.Folder,
+  ArchiveinfoRecords.Folder_write self = write_folder (FolderGen.folder_of self).
+Proof. exact FolderGen.gen_Folder_write_eq_model. Qed.
+Print Assumptions C07_gen_Folder_write_is_write_folder.
+
+Theorem C07_gen_UnpackInfo_write_is_write_unpackinfo : forall self : ArchiveinfoRecords.UnpackInfo,
+  ArchiveinfoRecords.UnpackInfo_write self false =
+  if ArchiveinfoRecords.UnpackInfo_numfolders self =? zlen (ArchiveinfoRecords.UnpackInfo_folders self)
+  then write_unpackinfo (map FolderGen.folder_of (ArchiveinfoRecords.UnpackInfo_folders self)) else Err EOther.
+Proof. exact FolderGen.gen_UnpackInfo_write_eq_model. Qed.
+Print Assumptions C07_gen_UnpackInfo_write_is_write_unpackinfo.
+
+(* hence the section theorem over the generated writer *)
+Theorem C07_gen_unpackinfo_strict : forall lim (self : ArchiveinfoRecords.UnpackInfo) bs,
+  let fs := map FolderGen.folder_of (ArchiveinfoRecords.UnpackInfo_folders self) in
+  zlen fs <= lim -> forallb (wfw_folder lim) fs = true -> ArchiveinfoRecords.UnpackInfo_write self false = Ok bs ->
+  exists body, bs = 7 :: body /\ forall r, s_unpackinfo lim (body ++ r) = Ok (map sem_folder fs, r).
+Proof.
+  intros lim self bs fs Hn Hwf Hw. rewrite FolderGen.gen_UnpackInfo_write_eq_model in Hw.
+  destruct (_ =? _) in Hw; [|discriminate]. exact (s_unpackinfo_wr lim fs bs Hn Hwf Hw).
+Qed.
+Print Assumptions C07_gen_unpackinfo_strict.
+
+Theorem C07_gen_write_crcs_is_wr_list : forall crcs, ArchiveinfoRecords.write_crcs crcs = wr_list (wr_fixed 4) crcs.
+Proof. exact HeaderGenPrims.gen_write_crcs_wr_list. Qed.
+Print Assumptions C07_gen_write_crcs_is_wr_list.
